@@ -127,7 +127,8 @@ type jsGen struct {
 	inSwitch      int
 	labels        []string
 	budget        int
-	inClassMethod bool
+	inClassMethod bool       // super.x is allowed here (methods, accessors, field initialisers, static blocks; arrows inherit)
+	classPrivs    [][]string // private names declared so far by the enclosing class bodies (innermost last)
 	newTargetOK   bool
 	reserved      string          // name of the function expression being entered: not redeclared inside it
 	bodyReserved  []string        // names declared by a loop head: not redeclared lexically in the loop body block (known finding)
@@ -427,6 +428,14 @@ func (g *jsGen) function(kind string, async, generator bool, exprBody bool) (par
 		g.newTargetOK = true
 	}
 	defer func() { g.newTargetOK = saveNT }()
+	saveICM := g.inClassMethod
+	switch kind {
+	case "func":
+		g.inClassMethod = false
+	case "method":
+		g.inClassMethod = true
+	}
+	defer func() { g.inClassMethod = saveICM }()
 	g.push("func")
 	if g.reserved != "" {
 		// a parameter or body declaration with the name of the function expression itself would shadow a binding
@@ -588,6 +597,8 @@ func (g *jsGen) class(isExpr bool) *JSNode {
 	}
 	body := &JSNode{K: "classbody"}
 	privs := []string{"#p", "#q", "#x"}
+	g.classPrivs = append(g.classPrivs, nil)
+	defer func() { g.classPrivs = g.classPrivs[:len(g.classPrivs)-1] }()
 	for i := r.Intn(4); i > 0; i-- {
 		el := &JSNode{K: "classel"}
 		if r.Intn(3) == 0 {
@@ -596,6 +607,7 @@ func (g *jsGen) class(isExpr bool) *JSNode {
 		var key *JSNode
 		if r.Intn(5) == 0 && len(privs) > 0 {
 			key = &JSNode{K: "keypriv", S: privs[0]}
+			g.classPrivs[len(g.classPrivs)-1] = append(g.classPrivs[len(g.classPrivs)-1], privs[0])
 			privs = privs[1:]
 		} else {
 			key = g.propKey()
@@ -662,10 +674,10 @@ func (g *jsGen) class(isExpr bool) *JSNode {
 // enterClassInit switches to the context of a class field initialiser / static block: no return, yield, await,
 // break or continue of an enclosing construct.
 func (g *jsGen) enterClassInit() (restore func()) {
-	sf, sg, sa, sl, ss, lb, nt := g.inFunc, g.inGen, g.inAsync, g.inLoop, g.inSwitch, g.labels, g.newTargetOK
-	g.inFunc, g.inGen, g.inAsync, g.inLoop, g.inSwitch, g.labels, g.newTargetOK = 0, false, false, 0, 0, nil, true
+	sf, sg, sa, sl, ss, lb, nt, cm := g.inFunc, g.inGen, g.inAsync, g.inLoop, g.inSwitch, g.labels, g.newTargetOK, g.inClassMethod
+	g.inFunc, g.inGen, g.inAsync, g.inLoop, g.inSwitch, g.labels, g.newTargetOK, g.inClassMethod = 0, false, false, 0, 0, nil, true, true
 	return func() {
-		g.inFunc, g.inGen, g.inAsync, g.inLoop, g.inSwitch, g.labels, g.newTargetOK = sf, sg, sa, sl, ss, lb, nt
+		g.inFunc, g.inGen, g.inAsync, g.inLoop, g.inSwitch, g.labels, g.newTargetOK, g.inClassMethod = sf, sg, sa, sl, ss, lb, nt, cm
 	}
 }
 
@@ -879,7 +891,23 @@ func (g *jsGen) expr(depth int, min int) *JSNode {
 				n = &JSNode{K: "await", Kids: []*JSNode{g.expr(depth+1, pComma)}}
 			}
 		case 26:
-			if g.newTargetOK && r.Intn(2) == 0 {
+			if g.inClassMethod && r.Intn(3) == 0 {
+				// super.p, super[e], super.m(args)
+				if r.Intn(3) == 0 {
+					n = &JSNode{K: "super", Op: "index", Kids: []*JSNode{g.expr(depth+1, pComma)}}
+				} else {
+					n = &JSNode{K: "super", Op: "member", S: Pick(r, []string{"p", "q", "k1"})}
+				}
+				if r.Intn(3) == 0 {
+					n = &JSNode{K: "call", Kids: append([]*JSNode{n}, g.args(depth+1)...)}
+				}
+			} else if g.inClassMethod && len(g.classPrivs) > 0 && len(g.classPrivs[len(g.classPrivs)-1]) > 0 && r.Intn(2) == 0 {
+				// #p in obj (a private name of the enclosing class)
+				ps := g.classPrivs[len(g.classPrivs)-1]
+				n = &JSNode{K: "bin", Op: "in", Kids: []*JSNode{{K: "privname", S: Pick(r, ps)}, g.expr(depth+1, pShift)}}
+			} else if !g.o.NoModuleItems && r.Intn(5) == 0 {
+				n = &JSNode{K: "importmeta"}
+			} else if g.newTargetOK && r.Intn(2) == 0 {
 				n = &JSNode{K: "newtarget"}
 			} else {
 				n = &JSNode{K: "import", Kids: []*JSNode{g.expr(depth+1, pAssign)}}
